@@ -14,7 +14,6 @@ import (
 var notApplicable = map[string]string{
 	"C17": "Equivalence of an optimised matcher with regexp semantics is a language-equivalence question over runtime patterns (DESIGN §6).",
 	"C27": "Equality of range and instant evaluation is numerical / iterator-state behaviour (DESIGN §6).",
-	"C29": "Operator semantics are numerical and label-set valued; exhaustiveness of the operator tables is claimed under C33 (DESIGN §6).",
 }
 
 func writeManifest() {
